@@ -356,6 +356,9 @@ def run(ctx):
         want = expected_introns(models)
         use_parent = (not gtf) and r2.random() < 0.3
         kw = dict(grandparent_featuretype=None, parent_featuretype="mRNA") if use_parent else {}
+        ma = r2.random() < 0.7                    # merge_attributes on / off
+        if not ma:
+            kw = dict(kw, merge_attributes=False)
         try:
             introns = list(db.create_introns(**kw))
             got = sorted((f.seqid, f.start, f.end, f.strand) for f in introns)
@@ -368,7 +371,7 @@ def run(ctx):
             res.nontriv(("introns", tuple(lines)))
             dcmds.append(dbside.cmd_create(lines, dbside.Cfg())); dexp.append(rep); dtags.append(("create_db", repr(lines)))
             gpw, ptw = ("~", enc("mRNA")) if use_parent else (enc("gene"), "~")
-            dcmds.append("introns %s %s %s %s 1 0" % (gpw, ptw, enc("exon"), enc("intron")))
+            dcmds.append("introns %s %s %s %s %d 0" % (gpw, ptw, enc("exon"), enc("intron"), 1 if ma else 0))
             dexp.append(("FEATS", [pyside.enc_feature(f) for f in introns])); dtags.append(("create_introns", repr(lines)))
         except Exception as ex:
             res.oracle_failures.append(("create_introns raised %r" % ex, inp))
@@ -393,9 +396,9 @@ def run(ctx):
                                             "[end-1,end] of each intron labelled by side and strand (left sites first)",
                                             dict(inp, returned=got, expected=exp_sites)))
             for f in sites:
-                if not f.attributes["ID"][0].startswith(f.featuretype + "_"):
+                if ma and not f.attributes["ID"][0].startswith(f.featuretype + "_"):
                     res.oracle_failures.append(("a splice site's ID is not prefixed with its type", dict(inp, site=str(f))))
-            dcmds.append("splice %s %s %s 1 0" % (gpw, ptw, enc("exon")))
+            dcmds.append("splice %s %s %s %d 0" % (gpw, ptw, enc("exon"), 1 if ma else 0))
             dexp.append(("FEATS", [pyside.enc_feature(f) for f in sites])); dtags.append(("create_splice_sites", repr(lines)))
         except Exception as ex:
             res.oracle_failures.append(("create_splice_sites raised %r" % ex, inp))
